@@ -672,6 +672,31 @@ func (g *c04gen) doublesAndStrings(tier string, n int) {
 					Tags: []string{"dt:double", "h:" + hs.Name, "go:uint64"}, NT: true})
 			}
 		}
+		// the narrower Go integer types under xsd:double: the same number, the same encoding (predicate only)
+		for _, tc := range []struct {
+			v any
+			n int64
+		}{{int8(-7), -7}, {int16(300), 300}, {int32(-70000), -70000}, {int(12), 12}, {uint8(200), 200}, {uint16(65535), 65535}, {uint32(4000000000), 4000000000}, {uint(5), 5}, {int8(0), 0}} {
+			want, _ := hs.H.HashBytes([]byte(ld.GetCanonicalDouble(float64(tc.n))))
+			impl := implHash0(hs.H, full, tc.v)
+			g.out.Emit(Case{Op: "none", In: J{"dt": full, "val": fmt.Sprintf("%T %v", tc.v, tc.v)}, Impl: impl, Prop: judge(impl, want), Tags: []string{"dt:double", "h:" + hs.Name, "go:narrow-int"}, NT: true})
+		}
+		// Go types the standalone API does not take for the other datatypes are refused, not guessed at; narrow signed ones are numbers
+		for _, tc := range []struct {
+			v    any
+			want any
+		}{{uint64(5), "err"}, {uint8(5), "err"}, {uint32(5), "err"}, {[]byte("5"), "err"}, {nil, "err"}, {int16(-5), stmtEncInt(big.NewInt(-5), hs.Prime)}, {int8(5), big.NewInt(5)}} {
+			if w, isInt := tc.want.(*big.Int); isInt {
+				lo, hi := stmtRange("integer", hs.Prime)
+				if x := big.NewInt(-5); tc.v == any(int16(-5)) && (x.Cmp(lo) < 0 || x.Cmp(hi) > 0) {
+					tc.want = "err"
+				} else if tc.v == any(int8(5)) && w.Cmp(hi) > 0 {
+					tc.want = "err"
+				}
+			}
+			impl := implHash0(hs.H, xsdNS+"integer", tc.v)
+			g.out.Emit(Case{Op: "none", In: J{"dt": "integer", "val": fmt.Sprintf("%T %v", tc.v, tc.v)}, Impl: impl, Prop: judge(impl, tc.want), Tags: []string{"dt:integer", "h:" + hs.Name, "go:other-types"}, NT: true})
+		}
 		// other datatypes: hash of the string
 		for _, dt := range []string{"string", "anyURI", "date", "unknownType", "float", "decimal", "int", "long"} {
 			for _, s := range []string{"a", "hello world", "1", "true", "2020-01-01", strings.Repeat("x", 31), strings.Repeat("y", 32),
